@@ -228,7 +228,7 @@ func runCheck(o *options) int {
 	var wg sync.WaitGroup
 	for _, ob := range obls {
 		if ob.Res.status == "not-attempted" {
-			if o.tier == "thorough" {
+			if o.tier == "thorough" || os.Getenv("GOVC_EXPLORE") != "" {
 				// thorough: obligations outside the claimed kinds of partial contracts are attempted too,
 				// for information only (they are never counted and never raise a violation)
 				wg.Add(1)
@@ -320,6 +320,30 @@ func runCheck(o *options) int {
 		}
 	}
 	wg.Wait()
+	if os.Getenv("GOVC_EXPLORE") != "" {
+		// per function and kind: how many unclaimed obligations discharge / stay open
+		type fk struct{ f, k string }
+		okN, openN := map[fk]int{}, map[fk][]string{}
+		for _, ob := range obls {
+			if ob.Res.status == "not-attempted" && ob.Explore != "" {
+				key := fk{ob.Func, ob.Kind}
+				if ob.Explore == "unsat" {
+					okN[key]++
+				} else {
+					openN[key] = append(openN[key], ob.ID)
+				}
+			}
+		}
+		seen := map[fk]bool{}
+		for _, ob := range obls {
+			key := fk{ob.Func, ob.Kind}
+			if ob.Res.status != "not-attempted" || seen[key] {
+				continue
+			}
+			seen[key] = true
+			fmt.Printf("EXPLORE %-40s %-8s discharged=%d open=%d %v\n", key.f, key.k, okN[key], len(openN[key]), openN[key])
+		}
+	}
 	solveS := time.Since(t0).Seconds() - loadS - genS
 
 	rep := &Report{o: o, eng: eng, results: results, obls: obls, loadS: loadS, genS: genS, solveS: solveS, t0: t0, prelude: prelude, tmp: tmp}
